@@ -67,6 +67,7 @@ Lemma run_inits_leaves_other_scopes ds : Forall (fun d => is_initializer d = tru
 Proof.
   induction ds as [|d ds IH]; intros Hf rs h k Hne; cbn [run_inits]; [reflexivity|].
   inversion Hf as [|x l Hd Hrest]; subst.
+  destruct (lookup_i (sc_cache (get_scope (rs_p rs) h)) (ds_ident d)); [apply IH; assumption|].
   assert (Hl : ds_life d <> Singleton).
   { unfold is_initializer in Hd. apply andb_prop in Hd. destruct Hd as [Hd _]. destruct (ds_life d); cbn in Hd; congruence. }
   assert (H1 : get_scope (rs_p (fst (create_top rs h d))) k = get_scope (rs_p rs) k).
